@@ -52,6 +52,27 @@ class HList:
         return f"HList({self.items})"
 
 
+class Seg:
+    """An arbitrary finite sequence of opaque elements (length unknown, >= 0) standing inside an HList / tuple.  The engine allows
+    only concatenation-like uses of a container that holds one (star-arguments, extend, list()/tuple(), +, copy, assignment):
+    the container then denotes the concatenation of its items.  Element-wise uses (iteration, indexing, membership) are refused,
+    len/truth/== become symbolic.  This is how a proof quantifies over *all* action lists."""
+    n = 0
+
+    def __init__(self, name, elem=None):
+        self.name = name
+        self.elem = elem          # "str": every element is a string (a symbol list); None: opaque objects
+        Seg.n += 1
+        self.length = z3.Int(f"len_{name}_{Seg.n}")
+
+    def __repr__(self):
+        return f"<{self.name}...>"
+
+
+def has_seg(items):
+    return any(isinstance(x, Seg) for x in items)
+
+
 class HDict:
     """dict with concrete keys; `present[k]` is the condition under which the key exists."""
 
@@ -459,6 +480,9 @@ class Engine:
     class_store = {}
 
     def set_item(self, obj, k, v):
+        if isinstance(obj, SObj) and self.find_method(obj.cls, "__setitem__"):
+            self.call_method(obj, "__setitem__", [k, v], {})
+            return
         g = self.wguard()
         if isinstance(obj, HDict):
             k = self.concrete_key(k)
